@@ -302,6 +302,46 @@ class SymItems:
     def binop_sub(self, it, other):
         return SymKeyDiff(self.m, other.m)
 
+    def comp_(self, it, n, fr):
+        """(cond(k, v) for k, v in m.items()): the element expression evaluated at a GENERIC key of the map; the result is
+        only meaningful to any() / all(), which turn it into a quantifier over the keys of the map"""
+        import ast as _ast
+        from .values import Frame
+        if not isinstance(n, (_ast.GeneratorExp, _ast.ListComp)) or len(n.generators) != 1:
+            return NotImplemented
+        g = n.generators[0]
+        run = it.run
+        kq = z3.Int(run.fresh_name('k!gen'))
+        key = KeyTok(kq)
+        f2 = Frame(fr.fn, fr, fr.globals)
+        f2.nonlocals = set()
+        before = len(run.decisions)
+        it.assign_target(g.target, (key, self.m.lookup(key)) if self.what == 'items' else key, f2)
+        conds = [it.eval(c, f2) for c in g.ifs]
+        elt = it.eval(n.elt, f2)
+        if len(run.decisions) != before:
+            raise Unsupported('the element expression of a comprehension over a symbolic dict forks on symbolic state')
+        if not (is_sym(elt) or isinstance(elt, bool)) or any(not (is_sym(c) or isinstance(c, bool)) for c in conds):
+            raise Unsupported('comprehension over a symbolic dict whose elements are not truth values')
+        guard = z3.And(z3.Select(self.m.dom, kq), *[zbool(c) for c in conds])
+        return QuantGen(kq, guard, zbool(elt))
+
+
+class QuantGen:
+    """the truth values cond(k) for the keys k of a symbolic map satisfying guard(k): argument of any() / all()"""
+
+    def __init__(self, var, guard, body):
+        self.var, self.guard, self.body = var, guard, body
+
+    def any_(self):
+        return z3.Exists([self.var], z3.And(self.guard, self.body))
+
+    def all_(self):
+        return z3.ForAll([self.var], z3.Implies(self.guard, self.body))
+
+    def iterate(self, it, node):
+        raise Unsupported('a quantified comprehension can only be passed to any() / all()')
+
 
 class SymKeyDiff:
     def __init__(self, a, b):
